@@ -3,3 +3,5 @@
 package server
 
 func verifFrameIn() {}
+
+func verifFrameOut() {}
